@@ -197,6 +197,9 @@ func (f *genFam) populate(r *rand.Rand) {
 		if r.Intn(3) == 0 {
 			f.try(&ntypes.MsgCreateNotification{Creator: cc.S(), To: b.S(), Contents: `{"n":3}`})
 		}
+		if r.Intn(4) == 0 { // a recipient blocks a sender whose earlier notifications are still in its inbox
+			f.try(&ntypes.MsgBlockSenders{Creator: b.S(), ToBlock: []string{a.S()}})
+		}
 		// listed provers keep proving their current challenge (p3 stops half-way and gets dropped)
 		for _, t := range files {
 			uf, ok := c.App.StorageKeeper.GetFile(c.Ctx, t.root, a.S(), start)
